@@ -94,10 +94,13 @@ def oracle(spec, params, n, state):
     return st
 
 
-def h_cirq(env, spec, n, init, canary=False):
+def h_cirq(env, spec, n, init, canary=False, fixed=True):
     from tangelo.linq import Circuit
     gates, params = build_gates(env, spec)
-    circ = Circuit(gates, n_qubits=n)
+    # fixed=False: the width is left to the circuit (highest index + 1; idle qubits BELOW it are part of the register)
+    circ = Circuit(gates, n_qubits=n) if fixed else Circuit(gates)
+    if not fixed:
+        env.check_same(circ.width, n, "harness premise: width of the unfixed circuit")
     b = make_backend(env)
     if init:
         psi = env.state(n, "psi")
@@ -458,6 +461,9 @@ def shapes(tier, seed):
     for i_, sp_ in enumerate([[("RY", [0], []), ("CNOT", [1], [0])], [("H", [1], []), ("CRZ", [0], [1]), ("RX", [0], [])]]):
         for des_ in (False, True):
             out.append(Shape(f"cirq/shot-statevector/{i_}/desired={int(des_)}", h_cirq_shot_sv, dict(spec=sp_, n=2, desired=des_), modules=MODS, max_paths=16))
+    for i_, (sp_, n_) in enumerate([([("RY", [0], []), ("RX", [2], [])], 3), ([("H", [3], []), ("CRZ", [1], [3])], 4), ([("RY", [2], [])], 3)]):
+        for init_ in (False, True):
+            out.append(Shape(f"cirq/idle-gap/{i_}/init={int(init_)}", h_cirq, dict(spec=sp_, n=n_, init=init_, fixed=False), modules=MODS))
     for be in ("cirq", "sympy"):
         for nn in ((2,) if tier == "quick" else (2, 3)):
             out.append(Shape(f"shortcut-sampled/{be}/n{nn}", h_shortcut_sampled, dict(n=nn, backend=be), modules=MODS, max_paths=16))
